@@ -232,6 +232,9 @@ def run_api(ctx):
     own = {"C17": ("replace", "replace_all", "ident", "first_ident", "all_const"),
            "C16": ("group", "named_group", "named_groups", "groups")}.get(ctx.pid, ())
     mine_mm = [parse_kv(l) for l in mism if parse_kv(l).get("what") in own]
+    if ctx.pid == "C12":
+        # the CodePointSet model is proved to denote the set operations, so a differing result is a failing input
+        mine_mm = [dict(parse_kv(l), what=parse_kv(l).get("op"), detail=l[:400]) for l in mism if "stage=S7-cps" in l]
     if mine_mm and reported == 0:
         d = sorted(mine_mm, key=lambda d: len(d.get("pat", "")) + len(d.get("detail", "")))[0]
         path = write_replay(ctx, "input", dict(kind="failing-input", stream=stream, flags=d.get("flags", "-"), pattern=decode_pat(d.get("pat", "-")),
